@@ -191,8 +191,13 @@ Inductive xop :=
 | XDisconnect (id : N)
 (* runner-only operations (no actions of Model/Admission.v): *)
 | XReady (bucket : N)      (* hook: the pending node of that bucket becomes ready now *)
-| XIter.                   (* a plain iteration over the table (applies every ready pending node); the
+| XIter                    (* a plain iteration over the table (applies every ready pending node); the
                               queue of applied pending nodes is drained afterwards *)
+| XWho (id : N) (qvs : list N).
+                           (* HandlerOut::WhoAreYou for node [id] (Model.Admission.find_enr); [qvs]: the
+                              records of that node the running lookup holds (tracked by the harness from the
+                              table at the lookup's start and the NODES answers), in the order they are
+                              scanned.  Observed: the vid of the record handed to the handler, 0 for none *)
 
 Definition mode_of (n : N) : ip_mode := if n =? 0 then Ip4 else if n =? 1 then Ip6 else DualStack.
 
@@ -216,8 +221,8 @@ Definition to_aop (recs : list enr) (x : xop) : aop :=
   | XAdd v => AAddEnr (rlookup recs v)
   | XUnv id => AUnverifiable id
   | XDisconnect id => ADisconnect id
-  (* never used: [c12_steps] runs these two on the table directly *)
-  | XReady _ | XIter => ADiscovered 0 []
+  (* never used: [c12_steps] runs these on the table directly *)
+  | XReady _ | XIter | XWho _ _ => ADiscovered 0 []
   end.
 
 Definition add_code (r : add_out) : N :=
@@ -255,6 +260,9 @@ Fixpoint c12_steps (fx : fixes) (recs : list enr) (tfn : enr -> bool) (m : ip_mo
       | XIter =>
         (* KBucketsTable::iter, then take_applied_pending until None (as the service loop does) *)
         (drain_applied (fst (t_iter c t now)), [])
+      | XWho id qvs =>
+        let (t', r) := find_enr (rlookup recs) c t (map (rlookup recs) qvs) id now in
+        (t', [match r with Some e => e_vid e | None => 0 end])
       | _ =>
         let (t', o) := astep (rlookup recs) tfn m fx c t (to_aop recs x) now in
         (t', enc_aout (local t) x o)
